@@ -145,6 +145,13 @@ def struct_mutants(r, base, quick):
         c2 = list(ch)
         c2[1] = (zckref.H(p.chunk_hash_type, bytes(body[p.chunks[1]["start"]:p.chunks[1]["start"] + ch[1][2]])), ch[1][1], ch[1][2], ch[1][3])
         add("chunk-body+digests", [1], body=bytes(body), chunks=c2, data_digest=None if not p.has_uncomp else p.data_digest)
+    # a chunk body altered and the DATA digest recomputed, the chunk's own digest left stale: only the per-chunk verification can tell
+    for i in sorted(set([1, n - 1, r.randrange(1, n)])) if n >= 2 else []:
+        if ch[i][2] > 2 and not p.has_uncomp:
+            body = bytearray(d[p.header_len:])
+            off = p.chunks[i]["start"] + r.randrange(ch[i][2])
+            body[off] ^= r.choice([0x01, 0x10, 0x80])
+            add("chunk-body+data-digest", [i], body=bytes(body), data_digest=None)
     # the same self-consistent alteration behind the ORIGINAL lead (old header checksum kept): only the header checksum can tell
     if out and out[-1][0] == "reseal:chunk-body+digests":
         alt = out[-1][2]
@@ -171,7 +178,7 @@ def worker(case):
     cdir = case["dir"]
     keep = False
     data = core.unb64(case["data"])
-    cid = core.h8([case["base"], case["mut"], case["desc"], case["sizes"], case.get("pinned")])
+    cid = core.h8([case["base"], case["mut"], case["desc"], case["sizes"], case.get("pinned"), case.get("pre")])
     stats = {"files": 1}
     try:
         try:
@@ -201,7 +208,9 @@ def worker(case):
             if pins is None:
                 return core.verdict(cid, "unsupported", stats=stats)
             stats["pinned_opens"] = 1
-        rd = core.run_zh(case["zh"], cdir, gen.reader_script("f.zck", sizes=case["sizes"], pins=pins), {"f.zck": data}, name="read")
+        if case.get("pre"):
+            stats["reads_after_validation_calls"] = 1
+        rd = core.run_zh(case["zh"], cdir, gen.reader_script("f.zck", sizes=case["sizes"], pins=pins, pre=case.get("pre") or ()), {"f.zck": data}, name="read")
         if rd.timed_out and not rd.cpu_exceeded:
             return core.verdict(cid, "inconclusive", detail="watchdog", case=case)
         if rd.harness_error:
@@ -262,7 +271,7 @@ def worker(case):
                                 cdir=cdir, case=case)
         nontriv = gate and case["mut"] != "identity"
         return core.verdict(cid, "held", stats=stats, nontrivial=nontriv,
-                            sample={"base": case["base"], "mutation": case["mut"], "args": case["desc"], "sizes": case["sizes"],
+                            sample={"base": case["base"], "mutation": case["mut"], "args": case["desc"], "sizes": case["sizes"], "validation_calls_first": case.get("pre"),
                                     "reference": repr(ref)[:80], "library_success": ok})
     finally:
         core.cleanup_case(cdir, keep)
@@ -328,6 +337,13 @@ class C02(core.Check):
                     out.append({"base": b["name"], "mut": name, "desc": desc, "data": core.b64(data), "sizes": sizes, "zh": ctx["zh"],
                                 "orig": core.b64(b["content"]),
                                 "unzck": ctx["unzck"] if r.random() < (0.1 if self.quick else 0.05) else None})
+                    # the same read after the validation calls an application may make first (unzck validates the data checksum before it
+                    # extracts): verdicts cached by an earlier call must not replace the verification of what is read
+                    gated = not name.startswith(("bitflip", "subst", "insert", "delete", "swap", "trunc", "tail", "dup")) or name.startswith("identity")
+                    if r.random() < (0.9 if gated else 0.15):
+                        out.append({"base": b["name"], "mut": name, "desc": desc, "data": core.b64(data), "sizes": sizes, "zh": ctx["zh"], "orig": core.b64(b["content"]),
+                                    "pre": r.choice([["vd"], ["vd"], ["vc"], ["fv"], ["vd", "vc"], ["fv", "vd"]]),
+                                    "unzck": ctx["unzck"] if (gated and r.random() < 0.3) else None})
                     if name.startswith("oldlead:") or ((name.startswith(("bitflip:preface", "subst", "insert", "delete", "swap", "bitflip")) and not name.startswith("bitflip:lead")) and r.random() < 0.25):
                         out.append({"base": b["name"], "mut": name, "desc": desc, "data": core.b64(data), "sizes": sizes, "zh": ctx["zh"],
                                     "orig": core.b64(b["content"]), "unzck": None, "pinned": True})
